@@ -34,7 +34,7 @@ import z3
 
 from .. import values as V
 from .. import reals
-from ..values import Sym, S, lift, OutOfSubset, contains_sym, Obj
+from ..values import Sym, S, lift, OutOfSubset, contains_sym, Obj, Kind
 from ..interp import RaiseSig, BoundMethod
 
 RV = z3.RealVal
@@ -43,10 +43,176 @@ FALSE = z3.BoolVal(False)
 
 
 def rterm(x):
-    """z3 Real term of a scalar operand (python number, numpy scalar, Sym)."""
+    """z3 Real term of a scalar operand (python number, numpy scalar, Sym, NumVal): its mathematical value."""
     if isinstance(x, PArr):
         raise OutOfSubset("array-array ufunc operands are not modelled for pointwise arrays")
+    if isinstance(x, NumVal):
+        return x.val
     return reals._real(x)
+
+
+# ---------------------------------------------------------------------------------------------------------------------
+# value kind of user-supplied scalars: Python number | NumPy fixed-width integer scalar  (machine arithmetic for the latter)
+# ---------------------------------------------------------------------------------------------------------------------
+
+INT_DTYPES = [("int8", 8, True), ("int16", 16, True), ("int32", 32, True), ("int64", 64, True),
+              ("uint8", 8, False), ("uint16", 16, False), ("uint32", 32, False), ("uint64", 64, False)]
+
+
+class ScalarDType:
+    """The (one) NumPy integer dtype of the NumPy scalars on a path: a symbolic index into INT_DTYPES.  Scalars of different
+    integer dtypes in one expression (NumPy would promote) are not modelled."""
+
+    def __init__(self, ctx):
+        self.idx = z3.Int(ctx.fresh_name("scalar_dtype"))
+        ctx.assume(z3.And(self.idx >= 0, self.idx < len(INT_DTYPES)))
+
+    def _table(self, f):
+        r = f(*INT_DTYPES[-1][1:])
+        for i in range(len(INT_DTYPES) - 2, -1, -1):
+            r = z3.If(self.idx == i, f(*INT_DTYPES[i][1:]), r)
+        return r
+
+    def lo(self):
+        return self._table(lambda bits, signed: z3.RealVal(-(2 ** (bits - 1)) if signed else 0))
+
+    def hi(self):
+        return self._table(lambda bits, signed: z3.RealVal(2 ** (bits - 1) - 1 if signed else 2 ** bits - 1))
+
+    def wrap(self, t):
+        """two's-complement wrap-around of the integer-valued real `t` into the dtype's range"""
+        i = z3.ToInt(t)
+
+        def f(bits, signed):
+            P = 2 ** bits
+            return z3.ToReal(((i + P // 2) % P) - P // 2) if signed else z3.ToReal(i % P)
+
+        return self._table(f)
+
+
+def scalar_dtype(ctx):
+    d = ctx.ghost.get("scalar_dtype")
+    if d is None:
+        d = ctx.ghost["scalar_dtype"] = ScalarDType(ctx)
+    return d
+
+
+class NumVal(Kind):
+    """A scalar whose KIND matters for arithmetic:  val = its mathematical value (z3 Real);  np = it is a NumPy fixed-width
+    integer scalar (of the path's ScalarDType);  pyint = it is a Python int (a `weak` scalar: combined with a NumPy integer
+    scalar the result stays in that integer dtype, NEP 50).  Neither flag: a Python float / NumPy float64 (exact, A1).
+    Trusted NumPy fact: +, -, abs, negation of NumPy integer scalars (and NumPy-int with Python-int) are computed in the
+    fixed-width dtype and wrap around; with a float operand the result is an (exact) float64; .item() / float() give the
+    exact Python number."""
+
+    def __init__(self, val, np_=FALSE, pyint=FALSE):
+        Kind.__init__(self, "number")
+        self.val, self.np, self.pyint = z3.simplify(val), z3.simplify(np_), z3.simplify(pyint)
+
+    def __repr__(self):
+        return f"NumVal({self.val}, np={self.np}, pyint={self.pyint})"
+
+    __hash__ = object.__hash__
+
+    @staticmethod
+    def of(x):
+        if isinstance(x, NumVal):
+            return x
+        if isinstance(x, bool):
+            raise OutOfSubset("bool operand of a scalar whose kind is tracked")
+        if isinstance(x, (int, np.integer)) and not isinstance(x, np.integer):
+            return NumVal(z3.RealVal(x), FALSE, z3.BoolVal(True))
+        if isinstance(x, (float, np.floating)):
+            return NumVal(lift(float(x)))
+        if isinstance(x, Sym) and not x.is_bool:
+            return NumVal(reals._real(x), FALSE, z3.BoolVal(bool(x.is_int)))
+        raise OutOfSubset(f"operand {type(x).__name__} of a scalar whose kind is tracked")
+
+    @staticmethod
+    def machine(a, b):
+        """is a (+|-) b computed in the fixed-width integer dtype?"""
+        return z3.simplify(z3.And(z3.Or(a.np, b.np), z3.Or(a.np, a.pyint), z3.Or(b.np, b.pyint)))
+
+    def _arith(self, other, f, swap=False):
+        try:
+            o = NumVal.of(other)
+        except OutOfSubset:
+            return NotImplemented
+        a, b = (o, self) if swap else (self, o)
+        m = NumVal.machine(a, b)
+        exact = f(a.val, b.val)
+        if z3.is_false(m):
+            r = NumVal(exact, FALSE, z3.And(a.pyint, b.pyint))
+        else:
+            r = NumVal(z3.If(m, scalar_dtype(V.cur()).wrap(exact), exact), m, z3.And(z3.Not(m), a.pyint, b.pyint))
+        return r
+
+    def __add__(self, o):
+        return self._arith(o, lambda x, y: x + y)
+
+    def __radd__(self, o):
+        return self._arith(o, lambda x, y: x + y, True)
+
+    def __sub__(self, o):
+        return self._arith(o, lambda x, y: x - y)
+
+    def __rsub__(self, o):
+        return self._arith(o, lambda x, y: x - y, True)
+
+    def __neg__(self):
+        return NumVal(0.0 if False else z3.RealVal(0), FALSE, z3.BoolVal(True))._arith(self, lambda x, y: x - y)
+
+    def __abs__(self):
+        n = -self
+        return NumVal(z3.If(self.val >= 0, self.val, n.val), self.np, self.pyint)
+
+    def _cmp(self, other, f):
+        try:
+            o = NumVal.of(other)
+        except OutOfSubset:
+            return NotImplemented
+        return Sym(f(self.val, o.val))
+
+    def __eq__(self, o):
+        if o is None:
+            return False
+        return self._cmp(o, lambda x, y: x == y)
+
+    def __ne__(self, o):
+        if o is None:
+            return True
+        return self._cmp(o, lambda x, y: x != y)
+
+    def __lt__(self, o):
+        return self._cmp(o, lambda x, y: x < y)
+
+    def __le__(self, o):
+        return self._cmp(o, lambda x, y: x <= y)
+
+    def __gt__(self, o):
+        return self._cmp(o, lambda x, y: x > y)
+
+    def __ge__(self, o):
+        return self._cmp(o, lambda x, y: x >= y)
+
+    def item(self):
+        """ndarray/np.generic .item(): the exact Python number"""
+        return NumVal(self.val, FALSE, z3.Or(self.np, self.pyint))
+
+    def sanitized(self):
+        return self.item()
+
+
+def fresh_numval(ctx, name):
+    """A user-supplied number of arbitrary kind (Python int / float, NumPy integer scalar of the path's dtype)."""
+    v = ctx.fresh(name, "real").t
+    np_ = ctx.fresh(name + "_is_numpy_int_scalar", "bool").t
+    pyint = ctx.fresh(name + "_is_python_int", "bool").t
+    d = scalar_dtype(ctx)
+    ctx.assume(z3.Not(z3.And(np_, pyint)))
+    ctx.assume(z3.Implies(z3.Or(np_, pyint), z3.IsInt(v)))
+    ctx.assume(z3.Implies(np_, z3.And(d.lo() <= v, v <= d.hi())))
+    return NumVal(v, np_, pyint)
 
 
 class Elem:
@@ -96,6 +262,10 @@ class DataGhost:
         self.has_ninf = z3.Bool(ctx.fresh_name(name + "_has_ninf"))
         self.has_nan = z3.Bool(ctx.fresh_name(name + "_has_nan"))
 
+    def scalar(self, arr, term):
+        """the scalar a reduction of `arr` returns (value kind: see NumVal)"""
+        return make_reduction_scalar(self, arr, term)
+
     def facts(self, elems):
         """Meaning of the ghosts w.r.t. generic entries of the array (definition of min / max of the finite entries)."""
         f = [z3.Implies(self.has_finite, self.gmin <= self.gmax),
@@ -107,6 +277,17 @@ class DataGhost:
             f.append(z3.Implies(z3.And(z3.Not(e.nan), e.inf > 0), self.has_pinf))
             f.append(z3.Implies(z3.And(z3.Not(e.nan), e.inf < 0), self.has_ninf))
         return f
+
+
+def make_reduction_scalar(ghost, arr, term):
+    """np.min / np.max return a NumPy scalar of the ARRAY's dtype: for an integer array a fixed-width integer scalar (the
+    path's ScalarDType stands for the array's dtype; its entries lie in that dtype's range)."""
+    if arr.dt == "i":
+        ctx = V.cur()
+        d = scalar_dtype(ctx)
+        ctx.assume(z3.Implies(ghost.has_finite, z3.And(d.lo() <= ghost.gmin, ghost.gmax <= d.hi(), z3.IsInt(ghost.gmin), z3.IsInt(ghost.gmax))))
+        return NumVal(term, z3.BoolVal(True), FALSE)
+    return Sym(term)
 
 
 class PArr:
@@ -142,10 +323,14 @@ class PArr:
         return PArr(self.elems, nk, self.data, self.name + ".astype", self.filtered)
 
     def ravel(self):
-        # a view: reading only (no later write goes through it in the code under contract; writes would be missed -> reject)
+        # ravel of a C-contiguous ndarray is a VIEW: writes through it reach the caller's array (see _written)
         r = PArr(self.elems, self.dt, self.data, self.name + ".ravel", self.filtered)
         r.view_of = self
         return r
+
+    def _pyvc_signature(self):
+        """frame signature (contracts.common.frame_snapshot): changes whenever the array - or a view of it - is written."""
+        return ("parr", id(self), self.writes, tuple(id(e) for e in self.elems))
 
     def copy(self):
         return PArr(self.elems, self.dt, self.data, self.name + ".copy", self.filtered)
@@ -158,10 +343,55 @@ class PArr:
         raise OutOfSubset("indexing of a pointwise array other than a[np.isfinite(a)]")
 
     def set_elems(self, elems):
-        if getattr(self, "view_of", None) is not None:
-            raise OutOfSubset("write through a view of a pointwise array")
         self.elems = list(elems)
+        self._written()
+
+    def _written(self):
+        """count the write on this array and on every array it is a view of (same entries: a ravel view is entry-for-entry the base)"""
         self.writes += 1
+        b = getattr(self, "view_of", None)
+        while b is not None:
+            b.elems = list(self.elems)
+            b.writes += 1
+            b = getattr(b, "view_of", None)
+
+    def scramble(self, ctx):
+        """in-place permutation of the entries (np.partition / sort / overwrite_input=True): the multiset - hence min, max,
+        quantiles - is unchanged, but which entry sits at a given position is not: the generic positions now hold arbitrary
+        entries of the array."""
+        els = []
+        for j, e in enumerate(self.elems):
+            v = ctx.fresh(f"{self.name}_perm_x{j}", "real").t
+            if self.dt == "f":
+                nan = ctx.fresh(f"{self.name}_perm_nan{j}", "bool").t
+                inf = ctx.fresh(f"{self.name}_perm_inf{j}", "int").t
+                ctx.assume(z3.And(inf >= -1, inf <= 1))
+            else:
+                nan, inf = FALSE, ZERO_I
+            els.append(Elem(v, nan, inf))
+        if self.data is not None:
+            for f in self.data.facts(els):
+                ctx.assume(f)
+        self.set_elems(els)
+
+    def min(self, *a, **k):
+        return _reduce_min_max(V.cur(), self, "min", a, k)
+
+    def max(self, *a, **k):
+        return _reduce_min_max(V.cur(), self, "max", a, k)
+
+
+def _reduce_min_max(ctx, a, which, rest=(), kw=None):
+    """np.min / np.max / ndarray.min / .max of an array whose NaN entries have been filtered out (or an integer array)."""
+    if a.dt == "f" and not a.filtered:
+        raise OutOfSubset(f"np.{which} of an unfiltered float array (NaN would propagate): only a[np.isfinite(a)] is modelled")
+    if a.data is None:
+        raise OutOfSubset(f"np.{which} of a derived array without ghost summary")
+    if rest or kw:
+        raise OutOfSubset(f"np.{which} with axis/keywords")
+    if ctx.branch(z3.Not(a.data.has_finite)):
+        raise RaiseSig(ValueError(f"zero-size array to reduction operation {which}imum which has no identity"))
+    return a.data.scalar(a, a.data.gmin if which == "min" else a.data.gmax)
 
 
 class PMask:
@@ -349,6 +579,8 @@ def install(reg, dataclasses_=(), normalize_cls=None):
     def m_abs(interp, x):
         if isinstance(x, PArr):
             raise OutOfSubset("np.abs of a pointwise array")
+        if isinstance(x, NumVal):
+            return abs(x)
         if contains_sym(x):
             t = rterm(x)
             return Sym(z3.If(t >= 0, t, -t))
@@ -360,6 +592,9 @@ def install(reg, dataclasses_=(), normalize_cls=None):
     def m_maximum(interp, a, b):
         if isinstance(a, PArr) or isinstance(b, PArr):
             raise OutOfSubset("np.maximum of a pointwise array")
+        if isinstance(a, NumVal) or isinstance(b, NumVal):
+            p, q = NumVal.of(a), NumVal.of(b)
+            return NumVal(z3.If(p.val >= q.val, p.val, q.val), NumVal.machine(p, q), FALSE)  # no overflow possible
         if contains_sym((a, b)):
             x, y = rterm(a), rterm(b)
             return Sym(z3.If(x >= y, x, y))
@@ -368,6 +603,9 @@ def install(reg, dataclasses_=(), normalize_cls=None):
     def m_minimum(interp, a, b):
         if isinstance(a, PArr) or isinstance(b, PArr):
             raise OutOfSubset("np.minimum of a pointwise array")
+        if isinstance(a, NumVal) or isinstance(b, NumVal):
+            p, q = NumVal.of(a), NumVal.of(b)
+            return NumVal(z3.If(p.val <= q.val, p.val, q.val), NumVal.machine(p, q), FALSE)  # no overflow possible
         if contains_sym((a, b)):
             x, y = rterm(a), rterm(b)
             return Sym(z3.If(x <= y, x, y))
@@ -423,22 +661,14 @@ def install(reg, dataclasses_=(), normalize_cls=None):
         return True
 
     def m_min(interp, a, *rest, **kw):
-        if not _need_filtered(a, "min"):
+        if not isinstance(a, PArr):
             return interp.native(np.min, a, *rest, **kw)
-        if rest or kw:
-            raise OutOfSubset("np.min with axis/keywords")
-        if interp.ctx.branch(z3.Not(a.data.has_finite)):
-            raise RaiseSig(ValueError("zero-size array to reduction operation minimum which has no identity"))
-        return Sym(a.data.gmin)
+        return _reduce_min_max(interp.ctx, a, "min", rest, kw)
 
     def m_max(interp, a, *rest, **kw):
-        if not _need_filtered(a, "max"):
+        if not isinstance(a, PArr):
             return interp.native(np.max, a, *rest, **kw)
-        if rest or kw:
-            raise OutOfSubset("np.max with axis/keywords")
-        if interp.ctx.branch(z3.Not(a.data.has_finite)):
-            raise RaiseSig(ValueError("zero-size array to reduction operation maximum which has no identity"))
-        return Sym(a.data.gmax)
+        return _reduce_min_max(interp.ctx, a, "max", rest, kw)
 
     M[np.min] = m_min
     M[np.amin] = m_min
@@ -463,8 +693,11 @@ def install(reg, dataclasses_=(), normalize_cls=None):
     def m_quantile(interp, a, q, *rest, **kw):
         if not _need_filtered(a, "quantile"):
             return interp.native(np.quantile, a, q, *rest, **kw)
+        overwrite = kw.pop("overwrite_input", False)
         if rest or kw:
             raise OutOfSubset("np.quantile with axis/method keywords")
+        if isinstance(overwrite, Sym):
+            overwrite = interp.truth(overwrite)
         qs = list(q) if isinstance(q, (tuple, list)) else [q]
         qt = [rterm(x) for x in qs]
         ctx = interp.ctx
@@ -476,6 +709,8 @@ def install(reg, dataclasses_=(), normalize_cls=None):
         for f in quantile_facts(a.data, qt):
             ctx.assume(f)
         res = [Sym(a.data.Q(t)) for t in qt]
+        if overwrite:
+            a.scramble(ctx)  # numpy partitions the input array in place (and with it every array it is a view of)
         return tuple(res) if isinstance(q, (tuple, list)) else res[0]
 
     M[np.quantile] = m_quantile
@@ -497,6 +732,15 @@ def install(reg, dataclasses_=(), normalize_cls=None):
 
     M[np.nanmin] = _nan_reduction("nanmin", np.nanmin, lambda g: g.gmin, lambda g: g.has_ninf)
     M[np.nanmax] = _nan_reduction("nanmax", np.nanmax, lambda g: g.gmax, lambda g: g.has_pinf)
+
+    old_float = M.get(float)
+
+    def m_float(interp, x=0.0):
+        if isinstance(x, NumVal):
+            return Sym(x.val)  # float(np.int16(..)) / float(3): the exact value as a Python float (A1)
+        return old_float(interp, x) if old_float is not None else interp.native(float, x)
+
+    M[float] = m_float
 
     def m_isclose(interp, a, b, rtol=1e-05, atol=1e-08, equal_nan=False):
         if isinstance(a, PArr) or isinstance(b, PArr):
@@ -523,7 +767,10 @@ def install(reg, dataclasses_=(), normalize_cls=None):
         N = normalize_cls
 
         def sanitize(v):
-            return v  # None stays None; the numeric value is preserved (int -> float, numpy scalar -> python scalar)
+            # _sanitize_extrema: None stays None; a NumPy scalar becomes the exact Python number (.item()), anything else float(v)
+            if hasattr(v, "sanitized"):
+                return v.sanitized()
+            return v
 
         def n_init(interp, self, vmin=None, vmax=None, clip=False):
             if not isinstance(self, Obj):
